@@ -83,10 +83,10 @@ pub fn check_fault(em: &Emitted, fault: &Fault) -> Vec<(String, String, String)>
     out
 }
 
-fn eval(p: &Program, fault_index: Option<usize>) -> (Vec<Failure>, usize) {
-    let em = emit(p);
+fn eval(p: &Program, fault_index: Option<usize>, trivia: bool) -> (Vec<Failure>, usize) {
+    let em = crate::pm::emit_with(p, trivia);
     let fs = faults(&em);
-    let case = json!({ "program": p, "fault_index": fault_index });
+    let case = json!({ "program": p, "fault_index": fault_index, "trivia": trivia });
     let r = guard(|| match fault_index {
         None => check_valid(&em),
         Some(i) => fs.get(i).map(|f| check_fault(&em, f)).unwrap_or_default(),
@@ -105,7 +105,7 @@ impl Engine for C13 {
 
     fn rule(&self, tier: Tier) -> String {
         format!(
-            "well-typed programs = a fixed library (class with defaults and a field of every type, multiclass, defs, global variables) + every single feature group{} + all {} groups together (groups: inheritance with overrides, defaults, record-typed parameters and subclass casts, defm, multiclass inheritance, foreach, if, defset, group let, class values, field access and slices, one call of each of the operator forms of DESIGN Appendix D, assert/dump, typed defvars, literals), single groups also inside foreach / let / if wrappers, one-file, two-file and diamond (the library included directly and again through a third file) layouts; each must have no diagnostics. \
+            "well-typed programs = a fixed library (class with defaults and a field of every type, multiclass, defs, global variables) + every single feature group{} + all {} groups together (groups: inheritance with overrides, defaults, record-typed parameters and subclass casts, defm, multiclass inheritance, foreach, if, defset, group let, class values, field access and slices, one call of each of the operator forms of DESIGN Appendix D, assert/dump, typed defvars, literals), single groups also inside foreach / let / if wrappers, one-file, two-file and diamond (the library included directly and again through a third file) layouts; each must have no diagnostics, printed plainly and with a comment after every identifier. \
              Then EVERY single fault at EVERY recorded site: undefined class / multiclass / identifier / include, missing or surplus template argument, a value of each incompatible base type in every field initialiser, override and template argument, one argument removed from or added to every operator call whose arity that violates, a deleted ';' and a stray ')' after every statement. \
              non-trivial = every case; distinct by construction.",
             tier.pick("", " and every ordered pair"),
@@ -138,16 +138,24 @@ impl Engine for C13 {
                     }
                     ctx.add("audited_with_llvm_tblgen", 1);
                 }
-                let (fails, nfaults) = eval(p, None);
+                let (fails, nfaults) = eval(p, None, false);
                 ctx.case(true);
                 ctx.add("valid_programs", 1);
+                // the same program with a comment after every identifier is as valid
+                ctx.trace(|| json!({ "program": p, "fault_index": null, "trivia": true, "witness": tag }));
+                let (fails_t, _) = eval(p, None, true);
+                ctx.case(true);
+                ctx.add("valid_programs", 1);
+                for f in fails_t {
+                    ctx.fail(f);
+                }
                 ctx.sample(|| json!({ "valid": tag, "fault_sites": nfaults }));
                 for f in fails {
                     ctx.fail(f);
                 }
                 for i in 0..nfaults {
                     ctx.trace(|| json!({ "program": p, "fault_index": i, "witness": format!("{tag} fault {i}") }));
-                    let (fails, _) = eval(p, Some(i));
+                    let (fails, _) = eval(p, Some(i), false);
                     ctx.case(true);
                     ctx.add("faults_seeded", 1);
                     for f in fails {
@@ -168,7 +176,8 @@ impl Engine for C13 {
     fn eval_case(&self, case: &Value) -> Vec<Failure> {
         let Some(p) = program_of(case) else { return vec![] };
         let idx = case["fault_index"].as_u64().map(|x| x as usize);
-        guard_on_stack(STACK, || eval(&p, idx).0).unwrap_or_default()
+        let trivia = case["trivia"].as_bool().unwrap_or(false);
+        guard_on_stack(STACK, || eval(&p, idx, trivia).0).unwrap_or_default()
     }
 
     fn shrink(&self, case: &Value, _clause: &str) -> Vec<Value> {
@@ -177,10 +186,11 @@ impl Engine for C13 {
             return vec![];
         }
         let Some(p) = program_of(case) else { return vec![] };
+        let trivia = case["trivia"].as_bool().unwrap_or(false);
         shrink_program(&p)
             .into_iter()
             .filter(|q| emit(q).occs.iter().all(|o| o.target.is_some() || !o.judged))
-            .map(|q| json!({ "program": q, "fault_index": null }))
+            .map(|q| json!({ "program": q, "fault_index": null, "trivia": trivia }))
             .collect()
     }
 }
